@@ -34,10 +34,17 @@ func c01Open(st *Store, root cid.Cid, how string) (datamodel.Node, error) {
 			return nil, err
 		}
 		return file.NewUnixFSFile(sessionCtx, n, ls)
-	case "Reify":
-		return loadReified(ls, root, "unixfs")
-	case "unixfs-preload":
-		return loadReified(ls, root, "unixfs-preload")
+	case "Reify", "unixfs-preload":
+		name := map[string]string{"Reify": "unixfs", "unixfs-preload": "unixfs-preload"}[how]
+		if b := root.Bytes(); !st.RequireSession && b[len(b)-1]&1 == 1 {
+			// half of the files are reified with the zero LinkContext (no context at all), as callers outside a traversal do
+			n, err := loadPlain(ls, root)
+			if err != nil {
+				return nil, err
+			}
+			return ls.KnownReifiers[name](lc0, n, ls)
+		}
+		return loadReified(ls, root, name)
 	case "NewUnixFSFile(reified)":
 		// the file constructor handed a node that is a (lazily) reified file already
 		rn, err := loadReified(ls, root, "unixfs")
